@@ -513,7 +513,17 @@ func (e *Enc) wrapAtomic(t Term, cellT types.Type) Term {
 }
 
 // strconv.Atoi on SMT strings: optional sign followed by decimal digits, value within int64.
+func (e *Enc) declareStringSpecs() {
+	e.sc.Raw(`(define-fun atoi_ok ((s String)) Bool (or (and (str.in_re s (re.+ (re.range "0" "9")))) (and (>= (str.len s) 2) (or (= (str.at s 0) "-") (= (str.at s 0) "+")) (str.in_re (str.substr s 1 (- (str.len s) 1)) (re.+ (re.range "0" "9"))))))`)
+	e.sc.Raw(`(define-fun atoi_val ((s String)) Int (ite (= (str.at s 0) "-") (- (str.to_int (str.substr s 1 (- (str.len s) 1)))) (ite (= (str.at s 0) "+") (str.to_int (str.substr s 1 (- (str.len s) 1))) (str.to_int s))))`)
+	e.sc.Raw(`(define-fun pd_syntax ((s String)) Bool (or (= s "0") (= s "+0") (= s "-0") (str.in_re s (re.++ (re.opt (re.union (str.to_re "-") (str.to_re "+"))) (re.+ (re.++ (re.union (re.++ (re.+ (re.range "0" "9")) (re.opt (re.++ (str.to_re ".") (re.* (re.range "0" "9"))))) (re.++ (str.to_re ".") (re.+ (re.range "0" "9")))) (re.union (str.to_re "ns") (str.to_re "us") (str.to_re "\u{c2}\u{b5}s") (str.to_re "\u{ce}\u{bc}s") (str.to_re "ms") (str.to_re "s") (str.to_re "m") (str.to_re "h"))))))))`)
+	e.sc.DeclareFun("pd_val", []string{SString}, SInt)
+	e.sc.DeclareFun("pd_overflow", []string{SString}, SBool)
+	e.assumed["Go strings are modelled as SMT strings with one character per byte (code points 0..255)"] = true
+}
+
 func (e *Enc) extAtoi(s Term) []Term {
+	e.declareStringSpecs()
 	e.sc.Raw(`(define-fun atoi_ok ((s String)) Bool (or (and (str.in_re s (re.+ (re.range "0" "9")))) (and (>= (str.len s) 2) (or (= (str.at s 0) "-") (= (str.at s 0) "+")) (str.in_re (str.substr s 1 (- (str.len s) 1)) (re.+ (re.range "0" "9"))))))`)
 	e.sc.Raw(`(define-fun atoi_val ((s String)) Int (ite (= (str.at s 0) "-") (- (str.to_int (str.substr s 1 (- (str.len s) 1)))) (ite (= (str.at s 0) "+") (str.to_int (str.substr s 1 (- (str.len s) 1))) (str.to_int s))))`)
 	okSyntax := App(SBool, "atoi_ok", s)
@@ -531,9 +541,7 @@ func (e *Enc) extAtoi(s Term) []Term {
 
 // time.ParseDuration: regular success domain; value uninterpreted function of the string.
 func (e *Enc) extParseDuration(s Term) []Term {
-	e.sc.Raw(`(define-fun pd_syntax ((s String)) Bool (or (= s "0") (= s "+0") (= s "-0") (str.in_re s (re.++ (re.opt (re.union (str.to_re "-") (str.to_re "+"))) (re.+ (re.++ (re.union (re.++ (re.+ (re.range "0" "9")) (re.opt (re.++ (str.to_re ".") (re.* (re.range "0" "9"))))) (re.++ (str.to_re ".") (re.+ (re.range "0" "9")))) (re.union (str.to_re "ns") (str.to_re "us") (str.to_re "\u{b5}s") (str.to_re "\u{3bc}s") (str.to_re "ms") (str.to_re "s") (str.to_re "m") (str.to_re "h"))))))))`)
-	e.sc.DeclareFun("pd_val", []string{SString}, SInt)
-	e.sc.DeclareFun("pd_overflow", []string{SString}, SBool)
+	e.declareStringSpecs()
 	ok := And(App(SBool, "pd_syntax", s), Not(App(SBool, "pd_overflow", s)))
 	r := e.fresh("pd", SInt)
 	er := e.fresh("pderr", SIface)
